@@ -10,6 +10,13 @@ decoding a point yields Err or a valid point; `is_on_curve`/`is_torsion_free`
 keep their flag handling and return an arbitrary verdict; scalar decoding keeps
 the real canonicity comparison).  A failed check is replayed through Kani's
 concrete playback values on the real (unpatched) build.
+
+Engine M: the header parsers `Prover::try_from_bytes` / `Verifier::try_from_bytes`
+are translated from MIR to bit-vector path conditions with byte slices modelled by
+their length: for ALL input lengths and ALL header values every panic path (slice
+index, `expect`, overflow) is infeasible (cvc5 integer encoding of the bit-vector
+query, z3 bit-blasting as fallback).  Kani cannot compile the Prover harness
+(internal compiler error) and does not finish the Verifier one, see DESIGN.md.
 """
 import json
 import os
@@ -24,10 +31,8 @@ KANI_DIR = os.path.join(fw.VERIF, "kani")
 
 HARNESSES = [
     # name, tier, bound description
-    ("commit_key_from_raw_var_bytes_one_point", "quick", "<= 8+97 bytes (one raw point), symbolic length"),
     ("polynomial_from_slice", "quick", "<= 67 bytes (two scalars + slack)"),
-    ("prover_try_from_bytes_header", "quick", "<= 56 bytes: every header/length field arbitrary"),
-    ("verifier_try_from_bytes_header", "thorough", "<= 56 bytes: every header/length field arbitrary"),
+    ("commit_key_from_raw_var_bytes_one_point", "thorough", "<= 8+97 bytes (one raw point), symbolic length"),
     ("commit_key_from_slice_two_points", "thorough", "<= 101 bytes (two compressed points + slack)"),
     ("opening_key_from_slice", "thorough", "<= 244 bytes; accepted keys hold no identity point"),
     ("evaluations_from_slice", "thorough", "<= 239 bytes (domain + two scalars + slack)"),
@@ -71,6 +76,13 @@ def playback_bytes(out):
 
 
 def run(run):
+    # engine M: header/length arithmetic of Prover / Verifier::try_from_bytes for ALL lengths
+    from checks import decoder_lengths
+    decoder_lengths.obligations(run)
+    run.add_functions(["Prover::try_from_bytes (header and slicing, MIR)", "Verifier::try_from_bytes (header and "
+                       "slicing, MIR)"])
+    run.bounds.append("engine M: ALL input lengths (64-bit) and ALL values of the six 8-byte header fields of "
+                      "Prover::try_from_bytes / Verifier::try_from_bytes; nested decoders opaque (Ok(arbitrary) | Err)")
     lock = os.path.join(KANI_DIR, "Cargo.lock")
     if not os.path.exists(lock):
         subprocess.run(["cp", "/repo/Cargo.lock", lock])
@@ -120,9 +132,8 @@ def run(run):
         else:
             run.inconclusive.append(f"kani/{name}: {status} after {secs:.0f}s")
     run.extra["harnesses"] = results
-    run.add_functions(["CommitKey::from_raw_var_bytes", "Polynomial::from_slice", "Prover::try_from_bytes (header)",
-                       "Verifier::try_from_bytes (header)", "CommitKey::from_slice", "OpeningKey::from_slice",
-                       "Evaluations::from_slice", "Proof::from_bytes"])
+    run.add_functions(["CommitKey::from_raw_var_bytes", "Polynomial::from_slice", "CommitKey::from_slice",
+                       "OpeningKey::from_slice", "Evaluations::from_slice", "Proof::from_bytes"])
     run.bounds.append("; ".join(f"{n}: {b}" for n, _, b in todo))
     run.outside.append("real curve/field arithmetic (contract bodies), inflate/MessagePack of compressed circuits, byte "
                        "strings longer than the bounds, 'usable for proving without panicking', the full "
